@@ -187,4 +187,56 @@ example : (⟨['/'], [['a'], ['b']], ['/'], []⟩ : Item).Wf '/' := by
   simp at hx
   rcases hx with rfl | rfl <;> simp
 
+/-- The `add_*_by_path` functions (a fold of `add_path_to_tree` over well-formed path strings,
+    starting from ANY tree with pairwise different sibling names): with
+    `K := closure (paths t) branches` — the old node paths followed by every new prefix, once, in
+    order of first appearance — the node paths of the result are exactly `K`, no path twice, and
+    the children paths of every node are a sublist of `K` (existing children keep their order, new
+    ones follow in order of first appearance). With duplicates disallowed (`s` = the tree's
+    separator, in no name) a fold that does not raise is the fold with duplicates allowed and
+    keeps all names distinct if they were. -/
+theorem fold_exact (s c : Char) (dupOk : Bool) (items : List Item) (t : Tree) (fresh : Nat) (t' : Tree)
+    (fr' : Nat) (hwf : ∀ it ∈ items, it.Wf c) (hs : SibUnique t)
+    (hno : dupOk = false → SepFree s t ∧ ∀ it ∈ items, ∀ x ∈ it.branch, s ∉ x)
+    (h : addMany [s] [c] dupOk (items.map fun it => (it.render c, it.attrs)) t fresh = .ok (t', fr')) :
+    addMany [s] [c] true (items.map fun it => (it.render c, it.attrs)) t fresh = .ok (t', fr') ∧
+    SibUnique t' ∧ (closure (paths t) (items.map (·.branch))).Nodup ∧
+    (∀ q, q ∈ paths t' ↔ q ∈ closure (paths t) (items.map (·.branch))) ∧
+    (∀ b n, nodeAt b t' = some n →
+      (kidPaths (namesAlong b t') n).Sublist (closure (paths t) (items.map (·.branch)))) ∧
+    t'.name = t.name ∧ (∀ it ∈ items, it.branch.head? = some t.name) ∧
+    (dupOk = false → (names t).Nodup → (names t').Nodup) :=
+  addMany_spec s c dupOk items t fresh t' fr' hwf hs hno h
+
+/-- `dict_to_tree` on well-formed keys, both duplicate settings: node set = prefix closure, each
+    path once, children by first appearance; all names distinct with duplicates disallowed. -/
+theorem dict_to_tree_exact (c : Char) (dupOk : Bool) (items : List Item) (hwf : ∀ it ∈ items, it.Wf c) (t : Tree)
+    (h : dictToTree [c] dupOk (items.map fun it => (it.render c, it.attrs)) = .ok t) :
+    (firstSeen (items.map (·.branch))).Nodup ∧
+    (∀ q, q ∈ paths t ↔ q ∈ firstSeen (items.map (·.branch))) ∧ (paths t).Nodup ∧
+    (∀ b n, nodeAt b t = some n → (kidPaths (namesAlong b t) n).Sublist (firstSeen (items.map (·.branch)))) ∧
+    (dupOk = false → (names t).Nodup) := by
+  obtain ⟨h1, h2, h3, h4, h5⟩ := dictToTree_spec c dupOk items hwf t h
+  exact ⟨h2, h3, nodup_paths t h1, h4, h5⟩
+
+/-- `dataframe_to_tree` / `polars_to_tree` on well-formed paths (rows that pass the
+    duplicate-attribute check), both duplicate settings. The loop runs under the default separator
+    `/` (the root's separator is assigned afterwards), so with duplicates disallowed the names
+    must not contain `/` either. -/
+theorem rows_to_tree_exact (c : Char) (dupOk : Bool) (items : List Item) (hwf : ∀ it ∈ items, it.Wf c)
+    (hslash : dupOk = false → ∀ it ∈ items, ∀ x ∈ it.branch, '/' ∉ x) (t : Tree)
+    (h : rowsToTree [c] dupOk (items.map fun it => (it.render c, it.attrs)) = .ok t) :
+    (firstSeen (items.map (·.branch))).Nodup ∧
+    (∀ q, q ∈ paths t ↔ q ∈ firstSeen (items.map (·.branch))) ∧ (paths t).Nodup ∧
+    (∀ b n, nodeAt b t = some n → (kidPaths (namesAlong b t) n).Sublist (firstSeen (items.map (·.branch)))) ∧
+    (dupOk = false → (names t).Nodup) := by
+  obtain ⟨h1, h2, h3, h4, h5⟩ := rowsToTree_spec c dupOk items hwf hslash t h
+  exact ⟨h2, h3, nodup_paths t h1, h4, h5⟩
+
+example : dictToTree ['.'] true [("a.c".toList, [(['v'], .int 1)]), (".a.b.".toList, []), ("a".toList, [(['w'], .null)])] =
+    .ok (.node 0 ['a'] [(['w'], .null)] [.node 1 ['c'] [(['v'], .int 1)] [], .node 2 ['b'] [] []]) := by rfl
+
+example : rowsToTree ['|'] false [("|a|c".toList, [(['v'], .int 1)]), ("a|b|".toList, [(['v'], .null)])] =
+    .ok (.node 0 ['a'] [] [.node 1 ['c'] [(['v'], .int 1)] [], .node 2 ['b'] [] []]) := by rfl
+
 end C05
